@@ -137,10 +137,11 @@ def gen_tree(rng, root):
 
 
 def write_tree(t, root):
-    for path, lines in t.files.items():
+    for k, (path, lines) in enumerate(t.files.items()):
         os.makedirs(os.path.dirname(path), exist_ok=True)
         with open(path, 'w') as f:
-            f.write('\n'.join(lines) + '\n')
+            # text files as editors leave them: with or without a final newline, sometimes with blank lines at the top
+            f.write(('\n' * (k % 3 == 1)) + '\n'.join(lines) + ('' if (k % 2 == 1 and lines) else '\n'))
     for d in t.incdirs:
         os.makedirs(d, exist_ok=True)
     decoy = os.path.join(root, 'decoy')
@@ -225,8 +226,8 @@ def run_tree(asm, acc, seed, idx, ncli):
             v = rng.choice(victims)
             marker = 'db 0x%02x' % rng.randrange(1, 255)
             t.files[v] = t.files[v] + [marker, 'align 2']
-            with open(v, 'a') as f:
-                f.write(marker + '\nalign 2\n')
+            with open(v, 'w') as f:
+                f.write('\n'.join(t.files[v]) + '\n')
             # flatten again by the property's rule
             def flat(path):
                 out = []
